@@ -333,7 +333,7 @@ def _attrs_for_name(name):
         rn = R.node_mappings.get(name)
         declared = sorted(R.rules_dict[rn][0]) if rn in R.rules_dict else []
         keys = st.sampled_from(declared + ["id", "system", "scope", "lang", "foreign", "xml:lang"]) | _attr_odd_keys
-        r = _attr_cache[name] = st.dictionaries(keys, _attr_vals, max_size=3)
+        r = _attr_cache[name] = st.dictionaries(keys, _attr_vals, max_size=3) | st.dictionaries(keys, _attr_vals, min_size=4, max_size=7)
     return r
 
 
@@ -351,6 +351,7 @@ def _name_strategy():
 
 
 _tail = st.one_of(_typed_strings, _unicode)
+_SHAPES = st.sampled_from(["random", "random", "wide", "deep"])
 _small = st.integers(0, 4)
 
 
@@ -381,9 +382,15 @@ def _draw_node(draw):
 def arb_spec(draw, max_leaves=20):
     """arbitrary tree: random recursive-attachment shape (wide, deep and mixed), every field populated at random"""
     n = draw(st.integers(1, max(1, max_leaves)))
+    shape = draw(_SHAPES)
     nodes_ = [_draw_node(draw)]
     for i in range(1, n):
-        parent = nodes_[draw(_int(i))]
+        if shape == "wide":
+            parent = nodes_[draw(_int(min(i, 2)))]        # many children under very few nodes
+        elif shape == "deep":
+            parent = nodes_[i - 1] if draw(_int(6)) else nodes_[draw(_int(i))]
+        else:
+            parent = nodes_[draw(_int(i))]
         child = _draw_node(draw)
         parent.setdefault("k", []).append(child)
         nodes_.append(child)
